@@ -1,3 +1,4 @@
+//# tags=C05
 // ---- pure lemmas over the codec specification (C05: bijection, resolution read-back, injectivity)
 verus! {
 
